@@ -88,7 +88,7 @@ end
 
 mutual
 /-- `enable(feature_id, dry_run, toplevel)`; the boolean is `== COLVARS_OK` -/
-def enable (fuel : Nat) (F : Forest) (o f : Nat) (dry toplevel : Bool) : Forest × Bool :=
+def enable (fuel : Nat) (F : Forest) (o f : Nat) (dry toplevel err : Bool) : Forest × Bool :=
   match fuel with
   | 0 => (F, false)
   | fuel + 1 =>
@@ -102,27 +102,33 @@ def enable (fuel : Nat) (F : Forest) (o f : Nat) (dry toplevel : Bool) : Forest 
     if d.excl.any (isEnabled F o) then (F, false) else
     -- requires_self
     let r1 := d.self.foldl (fun (acc : Forest × Bool) g =>
-        if !acc.2 then acc else enable fuel acc.1 o g dry false) (F, true)
+        if !acc.2 then acc else enable fuel acc.1 o g dry false err) (F, true)
     if !r1.2 then r1 else
-    -- requires_alt: first alternative that can be enabled (tested dry, then for real)
+    -- requires_alt: the alternatives are tested in turn with a dry run (which, inside an error report, is not free of
+    -- side effects: `err` makes the nested alternatives be enabled for real); the first that passes is enabled
     let r2 := d.alt.foldl (fun (acc : Forest × Bool) alts =>
         if !acc.2 then acc else
-        let pick := alts.find? fun g => (enable fuel acc.1 o g true false).2
-        match pick with
+        let tested := alts.foldl (fun (t : Forest × Option Nat) g =>
+            match t.2 with
+            | some _ => t
+            | none =>
+              let r := enable fuel t.1 o g true false err
+              (r.1, if r.2 then some g else none)) (acc.1, none)
+        match tested.2 with
         | none =>
-          -- "just for printing error output": every alternative is enabled again for real, and whatever
-          -- reference counts that bumps before failing stay bumped
-          if !dry then (alts.foldl (fun F g => (enable fuel F o g false false).1) acc.1, false) else (acc.1, false)
+          -- "just for printing error output": every alternative is enabled again for real with `err` set, and whatever
+          -- that changes before failing stays changed
+          if !dry then (alts.foldl (fun F g => (enable fuel F o g false false true).1) tested.1, false) else (tested.1, false)
         | some g =>
-          if !dry then
-            let F' := (enable fuel acc.1 o g false false).1
+          if !dry || err then
+            let F' := (enable fuel tested.1 o g false false err).1
             (setF F' o f { (getF F' o f) with altRefs := (getF F' o f).altRefs ++ [g] }, true)
-          else (acc.1, true)) r1
+          else (tested.1, true)) r1
     if !r2.2 then r2 else
     -- requires_children
     let r3 := d.children.foldl (fun (acc : Forest × Bool) g =>
         (childrenOf acc.1 o).foldl (fun (acc : Forest × Bool) ch =>
-          if !acc.2 then acc else enable fuel acc.1 ch g (dry || !isActive acc.1 o) false) acc) r2
+          if !acc.2 then acc else enable fuel acc.1 ch g (dry || !isActive acc.1 o) false err) acc) r2
     if !r3.2 then r3 else
     if dry then (r3.1, true) else
     let F1 := r3.1
@@ -140,7 +146,7 @@ def restoreChildren (fuel : Nat) (F : Forest) (o : Nat) : Forest :=
     (List.range nf).foldl (fun F fid =>
       if isEnabled F o fid then
         (decl (clsOf F o) fid).children.foldl (fun F g =>
-          (childrenOf F o).foldl (fun F ch => (enable fuel F ch g false false).1) F) F
+          (childrenOf F o).foldl (fun F ch => (enable fuel F ch g false false false).1) F) F
       else F) F
 end
 
